@@ -4,10 +4,13 @@
 (* (SubprocessExec.tla), the behaviour extraction (MC_SubprocessExec.tla)  *)
 (* and the trace validation (SubprocessExecTrace.tla) of property C31.     *)
 (*                                                                         *)
-(* A test case is a sequence of statements [op, att]:                      *)
+(* A test case is a sequence of statements [op, att, bnd]:                 *)
 (*   op   what the statement does when executed (statement kind)           *)
 (*   att  which assertions are attached to it when the                     *)
 (*        assertion-verification observer runs                             *)
+(*   bnd  TRUE: assignment `var_k = <call>`; FALSE: expression statement   *)
+(*        `<call>` that binds no variable (what                            *)
+(*        TestCase.remove_unused_variables() makes of an unused result)    *)
 (*                                                                         *)
 (* ExecResultAt(p, obs, n) is the abstract action  Execute(tc) -> result   *)
 (* of Executor.tla: the result the in-process executor delivers for p when *)
@@ -22,10 +25,16 @@ EXTENDS Naturals, Sequences, FiniteSets
 Plain   == {"lit"}                    \* primitive assignment, no SUT code runs
 Records == {"recT", "recF",           \* SUT call, predicate true / false
             "obj", "mut",             \* SUT object construction / mutation of a watched object
+            "objR",                   \* SUT object whose pickling hooks (__getstate__/__setstate__)
+                                      \* are instrumented SUT code
+            "slow",                   \* SUT call that sleeps SlowDur time units in uninstrumented
+                                      \* code and then returns normally
             "flt", "coll", "enum",    \* float / collection / enum results (assertion kinds)
             "prt",                    \* the SUT writes to stdout and stderr
             "cnt"}                    \* the SUT reads and increments hidden module state (what-if)
-RaisesP == {"exc", "excS", "exit"}    \* raises; the exception object survives a pickle round trip
+RaisesP == {"exc", "excS", "exit",     \* raises; the exception object survives a pickle round trip
+            "excR"}                   \* ... through a custom __reduce__ that is instrumented SUT code
+                                      \* (the exception carries an "objR" object)
 RaisesU == {"excU"}                   \* raises; pickle.loads cannot rebuild the exception object
 Raises  == RaisesP \cup RaisesU
 Spins   == {"spin"}                   \* instrumented endless loop: killed by the tracer after the timeout
@@ -33,6 +42,9 @@ Naps    == {"nap"}                    \* uninstrumented endless wait: cannot be 
 Dies    == {"die"}                    \* kills the process executing it, but only inside a child process
                                       \* (fault injection; such a test case is not deterministic)
 AllOps  == Plain \cup Records \cup Raises \cup Spins \cup Naps \cup Dies
+Objs    == {"obj", "objR"}            \* results the trace observer keeps on its watch list
+Slows   == {"slow"}
+Hooked  == {"excR"}                   \* pickling the result runs instrumented code of the SUT
 
 Atts == {"none",     \* no assertion attached
          "gen",      \* the assertions the trace observer generated for this statement (they hold)
@@ -43,7 +55,8 @@ Atts == {"none",     \* no assertion attached
 ObsModes == {"trace",    \* RemoteAssertionTraceObserver attached
              "verify"}   \* RemoteAssertionVerificationObserver attached
 
-St(op, att) == [op |-> op, att |-> att]
+St(op, att) == [op |-> op, att |-> att, bnd |-> TRUE]
+Unb(st) == [st EXCEPT !.bnd = FALSE]          \* the same statement as expression statement
 Uniform(ops, att) == [k \in DOMAIN ops |-> St(ops[k], att)]
 
 Min(a, b) == IF a < b THEN a ELSE b
@@ -64,6 +77,19 @@ Det(p) == ~HasDie(p)
 CntIn(p) == Cardinality({k \in 1..Last(p) : p[k].op = "cnt"})
 CntBefore(p, k) == Cardinality({j \in 1..(k - 1) : p[j].op = "cnt"})
 Stateless(p) == CntIn(p) = 0
+
+(* ---- time (abstract units) ----------------------------------------------- *)
+\* Only "slow" statements take time while they terminate: SlowDur units each.
+SlowDur == 3
+Dur(p) == SlowDur * Cardinality({k \in 1..Last(p) : p[k].op \in Slows})
+\* THE budget of one test case: thread.join(timeout) of TestCaseExecutor.execute - in the
+\* process that calls it in-process and, with the settings (m, per) that were handed to the child,
+\* inside the child of the subprocess executor; also poll(timeout) of a job of one test case
+TestBudget(p, m, per) == Min(m, per * Len(p))
+T1(p, m, per) == TestBudget(p, m, per)
+\* a terminating test case that is still sleeping when its budget is used up
+OverBudget(p, m, per) == ~NonTerm(p) /\ Dur(p) >= TestBudget(p, m, per)
+TimesOut(p, m, per) == NonTerm(p) \/ OverBudget(p, m, per)
 \* hidden SUT state after the first i test cases of ts ran in one process
 RECURSIVE CntUpTo(_, _)
 CntUpTo(ts, i) == IF i = 0 THEN 0 ELSE CntUpTo(ts, i - 1) + CntIn(ts[i])
@@ -77,19 +103,22 @@ TimeoutRes == [none |-> FALSE, timeout |-> TRUE,  exc |-> 0, exct |-> "none",
 \* what the verification observer records for one executed statement
 Verif(st, raised) ==
   CASE st.att \in {"none", "gen"} -> "none"
-    [] st.att = "fail"   -> IF raised THEN "error" ELSE "failed"  \* raised: the variable is unbound
+    [] st.att = "fail"   -> IF raised \/ ~st.bnd THEN "error" ELSE "failed"  \* the variable is unbound
     [] st.att = "err"    -> "error"
     [] st.att = "xwrong" -> IF raised THEN "error" ELSE "failed"  \* other exception / none raised
 
 \* assertion-trace entries after statement k: <<position, source>>; source = position of the
 \* statement that bound the variable, 0 = static field of the module, Len(p)+1.. = exception
+\* (an expression statement that does not raise is not observed at all)
 AtrAt(p, k) ==
   IF k = StopAt(p) THEN {<<k, Len(p) + 1>>}
-  ELSE {<<k, k>>, <<k, 0>>} \cup {<<k, j>> : j \in {i \in 1..(k - 1) : p[i].op = "obj"}}
+  ELSE IF ~p[k].bnd THEN {}
+  ELSE {<<k, k>>, <<k, 0>>} \cup {<<k, j>> : j \in {i \in 1..(k - 1) : p[i].op \in Objs /\ p[i].bnd}}
 
-\* Execute(tc) -> result, started with hidden SUT state n0
-ExecResultAt(p, obs, n0) ==
-  IF NonTerm(p) THEN TimeoutRes
+\* Execute(tc) -> result, started with hidden SUT state n0, by an executor with the settings
+\* maximum_test_execution_timeout = m, test_execution_time_per_statement = per
+ExecResultAt(p, obs, n0, m, per) ==
+  IF TimesOut(p, m, per) THEN TimeoutRes
   ELSE LET last == Last(p)
            ran == {j \in 1..last : p[j].op \in Records \cup Raises}
            chk == {j \in 1..last : Verif(p[j], j = StopAt(p)) # "none"}
@@ -99,7 +128,7 @@ ExecResultAt(p, obs, n0) ==
            items |-> {<<k, p[k].op, IF p[k].op = "cnt" THEN n0 + CntBefore(p, k) ELSE 0>> : k \in ran},
            atr |-> IF obs = "trace" THEN UNION {AtrAt(p, k) : k \in 1..last} ELSE {},
            vtr |-> IF obs = "verify" THEN {<<k, Verif(p[k], k = StopAt(p))>> : k \in chk} ELSE {}]
-ExecResult(p, obs) == ExecResultAt(p, obs, 0)
+ExecResult(p, obs, m, per) == ExecResultAt(p, obs, 0, m, per)
 
 (* ---- what the subprocess protocol does to a result ----------------------- *)
 \* _fix_result_for_pickle: "ascoded" drops exceptions that dill cannot round-trip from
@@ -109,22 +138,28 @@ PickleFix(r, mode) ==
   THEN [r EXCEPT !.exc = 0, !.exct = "none"]
   ELSE r
 
-\* _create_variable_binding: statement position -> name of the variable it binds
-Bind(p) == [k \in 1..Len(p) |-> k]
-\* _fix_assertion_trace: memo = {new name -> old name}; sources not in the memo stay
-Relink(atr, oldb, newb) ==
-  {<<a[1], IF \E q \in DOMAIN newb : newb[q] = a[2]
-           THEN oldb[CHOOSE q \in DOMAIN newb : newb[q] = a[2]]
-           ELSE a[2]>> : a \in atr}
+\* _create_variable_binding: statement position -> name of the variable it binds; expression
+\* statements bind nothing and have no entry
+Bind(p) == [k \in {j \in 1..Len(p) : p[j].bnd} |-> k]
+\* _fix_assertion_trace: memo = {new name -> old name}; sources not in the memo stay; EVERY entry
+\* of the trace is re-added, also those at positions without a binding
+Relinked(a, oldb, newb) ==
+  <<a[1], IF \E q \in DOMAIN newb : newb[q] = a[2]
+          THEN oldb[CHOOSE q \in DOMAIN newb : newb[q] = a[2]]
+          ELSE a[2]>>
+Relink(atr, oldb, newb) == {Relinked(a, oldb, newb) : a \in atr}
+\* what-if: only the positions that bind a variable are re-added
+RelinkBoundOnly(atr, oldb, newb) == {Relinked(a, oldb, newb) : a \in {b \in atr : b[1] \in DOMAIN newb}}
 
-(* ---- time (abstract units) ----------------------------------------------- *)
-\* timeout of one test case: thread.join in the in-process executor, poll for a single test
-T1(p, M, Per) == Min(M, Per * Len(p))
-\* time the in-process executor (also the one inside the child) spends on p beyond "no time"
-Cost(p, M, Per) ==
-  IF ~NonTerm(p) THEN 0
-  ELSE IF p[StopAt(p)].op \in Spins THEN T1(p, M, Per)   \* join(timeout), thread dies at once
-  ELSE T1(p, M, Per) + M                                 \* second join waits the maximum
+(* ---- cost ----------------------------------------------------------------- *)
+\* the sleep during which the budget b runs out ends at the next multiple of SlowDur
+SleepEnd(b) == ((b \div SlowDur) + 1) * SlowDur
+\* time the in-process executor (also the one inside the child) spends on p
+Cost(p, m, per) ==
+  IF ~TimesOut(p, m, per) THEN Dur(p)
+  ELSE IF OverBudget(p, m, per) THEN SleepEnd(T1(p, m, per))  \* killed when it is back in instrumented code
+  ELSE IF p[StopAt(p)].op \in Spins THEN T1(p, m, per)        \* join(timeout), thread dies at once
+  ELSE T1(p, m, per) + m                                      \* second join waits the maximum
 RECURSIVE SumSizes(_, _)
 SumSizes(job, tests) == IF job = <<>> THEN 0 ELSE Len(tests[Head(job)]) + SumSizes(Tail(job), tests)
 \* _calculate_timeout_for_multiple
